@@ -325,6 +325,14 @@ func PanicSig(prefix string, stack []byte) string {
 		}
 		m = strings.TrimPrefix(m, "github.com/pion/dtls/v3")
 		m = strings.TrimPrefix(m, "/")
+		// drop the argument list "(0x...": only "(*T)" receivers keep their parenthesis
+		for i := 0; i < len(m); i++ {
+			if m[i] == '(' && (i+1 >= len(m) || m[i+1] != '*') {
+				m = m[:i]
+
+				break
+			}
+		}
 
 		return prefix + "|panic|" + m
 	}
